@@ -27,12 +27,20 @@ IN_RANGE = "forall(lambda k: 0 <= {L}[k] and {L}[k] < len({A}), 0, len({L}))"
 # extract_tokens and the report rely on)
 SLICE = "0 <= {R}.iStartIndex and {R}.lTokens == lAllTokens[{R}.iStartIndex:{R}.iStartIndex + len({R}.lTokens)] and {R}.iLine == 1 + ncr(lAllTokens[:{R}.iStartIndex])"
 
+# regions come in the order of the list: the position behind each region's last token never decreases (vhdlFile.update splices
+# from the last region to the first and ASSUMES exactly that, P_update in contracts/vhdlfile.py)
+ASC = "forall(lambda k: {L}[k] <= {L}[k + 1], 0, len({L}) - 1)"
+ORDER = "forall(lambda k: {R}[k].iStartIndex + len({R}[k].lTokens) <= {R}[k + 1].iStartIndex + len({R}[k + 1].lTokens), 0, len({R}) - 1)"
+LAST_AT = "len(lReturn) <= _i and implies(len(lReturn) > 0, lReturn[len(lReturn) - 1].iStartIndex + len(lReturn[len(lReturn) - 1].lTokens) <= lIndexes[_i - 1] + 1)"
+
 CONTRACTS = {
     "vsg.token_map.New.get_token_indexes": stub(
         types={"oToken": "obj", "bCopy": "bool"},
         returns="list[int]",
         # positions of the list; none at all only if no token of the list is an instance of the class asked for
-        ensures=[IN_RANGE.format(L="result", A="gall"), "implies(len(result) == 0, forall(lambda j: not isinstance(gall[j], oToken), 0, len(gall)))"],
+        # ... and listed in ascending order: the index is built in one pass over the list, and its own line-number queries (bisect)
+        # rely on the same; part of the ASSUMED agreement of index and list
+        ensures=[IN_RANGE.format(L="result", A="gall"), "implies(len(result) == 0, forall(lambda j: not isinstance(gall[j], oToken), 0, len(gall)))", ASC.format(L="result")],
     ),
     # line of a position = 1 + number of line breaks in front of it
     "vsg.token_map.New.get_line_number_of_index": stub(types={"iIndex": "int"}, returns="int", ensures=["result >= 1", "implies(0 <= iIndex and iIndex <= len(gall), result == 1 + ncr(gall[:iIndex]))"]),
@@ -41,7 +49,7 @@ CONTRACTS = {
         types={"lTokens": "list[obj]", "oTokenMap": MAP},
         returns="list[int]",
         locals={"lReturn": "list[int]"},
-        ensures=[IN_RANGE.format(L="result", A="gall")],
+        ensures=[IN_RANGE.format(L="result", A="gall"), ASC.format(L="result")],
         loops={1: dict(invariant=[IN_RANGE.format(L="lReturn", A="gall")])},
     ),
     "vsg.vhdlFile.extract.get_tokens_matching.get_tokens_matching": dict(
@@ -52,10 +60,11 @@ CONTRACTS = {
         ensures=[
             # one region per position found, each the one-token slice at its recorded start
             "forall(lambda k: len(result[k].lTokens) == 1 and %s, 0, len(result))" % SLICE.format(R="result[k]"),
+            ORDER.format(R="result"),
         ],
         loops={
             1: dict(invariant=[IN_RANGE.format(L="lIndexes", A="lAllTokens")]),
-            2: dict(invariant=["forall(lambda k: len(lReturn[k].lTokens) == 1 and %s, 0, len(lReturn))" % SLICE.format(R="lReturn[k]")]),
+            2: dict(invariant=["forall(lambda k: len(lReturn[k].lTokens) == 1 and %s, 0, len(lReturn))" % SLICE.format(R="lReturn[k]"), ORDER.format(R="lReturn"), LAST_AT]),
         },
     ),
     "vsg.vhdlFile.extract.get_tokens_at_beginning_of_line_matching.get_tokens_at_beginning_of_line_matching": dict(
@@ -66,8 +75,9 @@ CONTRACTS = {
         ensures=[
             # [token] or [white space, token]: the slice at the recorded start
             "forall(lambda k: (len(result[k].lTokens) == 1 or len(result[k].lTokens) == 2) and %s, 0, len(result))" % SLICE.format(R="result[k]"),
+            ORDER.format(R="result"),
         ],
-        loops={1: dict(invariant=["forall(lambda k: (len(lReturn[k].lTokens) == 1 or len(lReturn[k].lTokens) == 2) and %s, 0, len(lReturn))" % SLICE.format(R="lReturn[k]")])},
+        loops={1: dict(invariant=["forall(lambda k: (len(lReturn[k].lTokens) == 1 or len(lReturn[k].lTokens) == 2) and %s, 0, len(lReturn))" % SLICE.format(R="lReturn[k]"), ORDER.format(R="lReturn"), LAST_AT])},
     ),
 }
 
@@ -82,8 +92,9 @@ CONTRACTS.update(
             ensures=[
                 "forall(lambda k: result[k] < len(gall), 0, len(result))",
                 "forall(lambda k: 0 <= result[k], 0, len(result)) or forall(lambda j: not isinstance(gall[j], lTokens[0]), 0, len(gall))",
+                ASC.format(L="result"),
             ],
-            loops={1: dict(invariant=["forall(lambda k: lIndexes[k] < len(gall), 0, len(lIndexes))", "forall(lambda k: 0 <= lTemp[k] and lTemp[k] < len(gall), 0, len(lTemp))", "iAdjust >= 0", "forall(lambda j: not isinstance(gall[j], lTokens[0]), 0, len(gall))"])},
+            loops={1: dict(invariant=["forall(lambda k: lIndexes[k] < len(gall), 0, len(lIndexes))", "forall(lambda k: 0 <= lTemp[k] and lTemp[k] < len(gall), 0, len(lTemp))", "iAdjust >= 0", "forall(lambda j: not isinstance(gall[j], lTokens[0]), 0, len(gall))", ASC.format(L="lTemp"), ASC.format(L="lIndexes"), "len(lIndexes) == _i and implies(_i > 0, lIndexes[_i - 1] == lTemp[_i - 1] - iAdjust)"])},
             locals={"lIndexes": "list[int]", "lTemp": "list[int]"},
         ),
     }
@@ -100,9 +111,10 @@ CONTRACTS.update(
             ensures=[
                 # every region has as many tokens as the sequence has classes and is the slice at its recorded start
                 "forall(lambda k: len(result[k].lTokens) == len(lTokens) and %s, 0, len(result))" % SLICE.format(R="result[k]"),
+                ORDER.format(R="result"),
             ],
             loops={
-                1: dict(invariant=["forall(lambda k: len(lReturn[k].lTokens) == len(lTokens) and %s, 0, len(lReturn))" % SLICE.format(R="lReturn[k]")]),
+                1: dict(invariant=["forall(lambda k: len(lReturn[k].lTokens) == len(lTokens) and %s, 0, len(lReturn))" % SLICE.format(R="lReturn[k]"), ORDER.format(R="lReturn"), "len(lReturn) <= _i and implies(len(lReturn) > 0, lReturn[len(lReturn) - 1].iStartIndex + len(lReturn[len(lReturn) - 1].lTokens) <= lIndexes[_i - 1] + len(lTokens))"]),
                 # a position whose first token matched is a real (non-negative) position, and no look-up ran past the end
                 2: dict(invariant=["implies(_i > 0, 0 <= iIndex and iIndex + _i <= len(lAllTokens))"]),
             },
@@ -155,8 +167,8 @@ CONTRACTS.update(
             requires=["lAllTokens == gall", "iTokens >= 0"],
             returns="list[%s]" % TOI,
             locals={"lReturn": "list[%s]" % TOI, "lIndexes": "list[int]"},
-            ensures=["forall(lambda k: %s, 0, len(result))" % BEFORE.format(R="result[k]")],
-            loops={1: dict(invariant=["forall(lambda k: %s, 0, len(lReturn))" % BEFORE.format(R="lReturn[k]")])},
+            ensures=["forall(lambda k: %s, 0, len(result))" % BEFORE.format(R="result[k]"), ORDER.format(R="result")],
+            loops={1: dict(invariant=["forall(lambda k: %s, 0, len(lReturn))" % BEFORE.format(R="lReturn[k]"), ORDER.format(R="lReturn"), LAST_AT])},
         ),
         "vsg.rules.whitespace_before_token.extract_toi": dict(
             types={"oToi": TOI},
@@ -247,6 +259,48 @@ PENDING.update(
                 1: dict(invariant=["len(lEnd) == _i", "forall(lambda k: lStart[k] < lEnd[k] and lEnd[k] < len(lAllTokens) and exists(lambda j: not isinstance(lAllTokens[j], %s), lStart[k] + 1, lEnd[k]), 0, _i)" % WSC_, IN_RANGE.format(L="lStart", A="lAllTokens")]),
                 2: dict(invariant=["forall(lambda k: %s and %s, 0, len(lReturn))" % (COND.format(R="lReturn[k]"), STRIPPED.format(R="lReturn[k]"))]),
             },
+        ),
+    }
+)
+
+# ---------------------------------------------------------------------------------------------- indent of generics (generic_004)
+# positions outside the 'unless' regions, in the order they came in; the regions at the start of a line between the two bounding
+# tokens, in the order of the list (C07 / C18: update() splices from the last region to the first)
+SUBSEQ = "len(lReturn) <= _i and implies(len(lReturn) > 0, lReturn[len(lReturn) - 1] <= lIndexes[_i - 1])"
+CONTRACTS.update(
+    {
+        "vsg.vhdlFile.extract.utils.get_indexes_of_token_pairs": dict(
+            types={"lPairs": "list[list[obj]]", "oTokenMap": MAP},
+            returns="list[list[int]]",
+            raises=["IndexError"],
+            locals={"lReturn": "list[list[int]]"},
+            ensures=["forall(lambda k: len(result[k]) == 2, 0, len(result))"],
+            loops={1: dict(invariant=["forall(lambda k: len(lReturn[k]) == 2, 0, len(lReturn))"]), 2: dict(invariant=["forall(lambda k: len(lReturn[k]) == 2, 0, len(lReturn))"])},
+        ),
+        "vsg.vhdlFile.extract.utils.filter_indexes_in_unless_regions": dict(
+            types={"lIndexes": "list[int]", "lUnless": "list[list[obj]]", "oTokenMap": MAP},
+            requires=[ASC.format(L="lIndexes"), IN_RANGE.format(L="lIndexes", A="gall")],
+            returns="list[int]",
+            raises=["IndexError"],
+            locals={"lReturn": "list[int]"},
+            ensures=[ASC.format(L="result"), IN_RANGE.format(L="result", A="gall")],
+            loops={1: dict(invariant=[ASC.format(L="lReturn"), IN_RANGE.format(L="lReturn", A="gall"), SUBSEQ])},
+        ),
+        "vsg.vhdlFile.extract.utils.is_index_between_indexes": dict(
+            types={"iIndex": "int", "lStart": "list[int]", "lEnd": "list[int]", "bInclusive": "bool"},
+            returns="bool",
+        ),
+        "vsg.vhdlFile.extract.get_tokens_at_beginning_of_line_matching_between_tokens_unless_between_tokens.get_tokens_at_beginning_of_line_matching_between_tokens_unless_between_tokens": dict(
+            types={"lTokens": "list[obj]", "oStart": "obj", "oEnd": "obj", "lUnless": "list[list[obj]]", "bInclusive": "bool", "lAllTokens": "list[%s]" % ITEM, "oTokenMap": MAP},
+            requires=["lAllTokens == gall"],
+            returns="list[%s]" % TOI,
+            raises=["IndexError"],
+            locals={"lReturn": "list[%s]" % TOI, "lIndexes": "list[int]"},
+            ensures=[
+                "forall(lambda k: (len(result[k].lTokens) == 1 or len(result[k].lTokens) == 2) and %s, 0, len(result))" % SLICE.format(R="result[k]"),
+                ORDER.format(R="result"),
+            ],
+            loops={1: dict(invariant=["forall(lambda k: (len(lReturn[k].lTokens) == 1 or len(lReturn[k].lTokens) == 2) and %s, 0, len(lReturn))" % SLICE.format(R="lReturn[k]"), ORDER.format(R="lReturn"), LAST_AT])},
         ),
     }
 )
